@@ -181,7 +181,7 @@ def run(ctx):
     # every way out of parse_local_ext goes through the match that re-attaches the envelope
     if B is not None:
         sw = [bb for bb in sorted(B.live_blocks()) if (lambda sd: sd and sd[1].replace('&', '') == OWNED and 'parse_term' in str(B.origin_place(sd[0])))(B.switch_on_discr(bb))]
-        oks = [bb for bb, j, st in B.stmts() if st['k'] == '=' and st['pl']['l'] == 0 and not st['pl'].get('p') and st['rv']['k'] == 'agg' and st['rv'].get('var') == 'Ok']
+        oks = [bb for bb, j, st in B.stmts() if st['k'] == '=' and B.is_ret_slot(st['pl']['l']) and not st['pl'].get('p') and st['rv']['k'] == 'agg' and st['rv'].get('var') == 'Ok']
         if ctx.anchor(bool(sw) and bool(oks), DEC + 'parse_local_ext: match on the nested term / Ok returns'):
             early = [bb for bb in oks if not any(B.block_dominates(s_, bb) for s_ in sw)]
             if early:
